@@ -38,6 +38,23 @@ def run(ctx):
         sim = BuilderSim(ctx, features=feats, max_steps=cap)
         ctx.profile = {"root": sim.root_kind, "depth": sim.max_depth, "row": sim.max_row_width,
                        **{k: v for k, v in feats.items()}}
+        state = {"last": -1}
+
+        def quiescent_check(sim):
+            # whenever no builder is open below the root the HUGR is complete and must already be valid
+            # (catches a defect that a later call happens to repair, e.g. a port count fixed up by a later link)
+            from ..engines.b_builders import Actor, ModuleCtl
+            if any(isinstance(a, Actor) and not a.closed for a in sim.actors):
+                return
+            if any(not isinstance(a, (Actor, ModuleCtl)) and not a.closed for a in sim.actors):
+                return
+            n = len(sim.hugr)
+            if n == state["last"] or n < 4 or not ch.coin(1, 2, "quiescent-validate"):
+                return
+            state["last"] = n
+            ctx.probe("quiescent_point_validated")
+            check_valid(ctx, sim.hugr, "quiescent")
+        sim.after_step = quiescent_check
         sim.run()
     except Discard as d:
         ctx.discard = str(d)
